@@ -153,10 +153,13 @@ func (w *c01walker) walk(n *spec.Node, data any, prior any, dest any, path strin
 			if eff.HasDefault {
 				// the default is then tested like any other value
 				def, _ := ref.SliceElems(eff.Default)
-				if w.mode == ref.Parse {
-					for i := range ds {
-						if i < len(def) {
+				for i := range ds {
+					if i < len(def) {
+						if w.mode == ref.Parse {
 							w.walk(n.Elem, def[i], obs.NormValue(reflect.Zero(n.Elem.GoType())), ds[i], fmt.Sprintf("%s[%d]", path, i))
+						} else {
+							// Validate: the item placed from the default is a value like any other (absent iff zero)
+							w.walk(n.Elem, nil, obs.Norm(def[i]), ds[i], fmt.Sprintf("%s[%d]", path, i))
 						}
 					}
 				}
